@@ -4,6 +4,7 @@
 package rungraph
 
 import (
+	"errors"
 	"fmt"
 	"runtime"
 	"sort"
@@ -29,7 +30,7 @@ type Node struct {
 	// right before their first dependency request: free-running cases only. This aligns dependents
 	// that request the same fresh targets to within a few hundred nanoseconds.
 	Barrier bool `json:"barrier,omitempty"`
-	Yields  int     `json:"yields,omitempty"` // scheduling points inside the body
+	Yields  int  `json:"yields,omitempty"` // scheduling points inside the body
 }
 
 // Case is a graph plus a schedule.
@@ -76,12 +77,12 @@ type Obs struct {
 	UnfinishedAtRet  string
 	WaitChain        int
 
-	RunErr     error
-	RunDone    bool
+	RunErr            error
+	RunDone           bool
 	ActiveAtRunReturn int
-	Res        cosched.Result
-	Sched      *cosched.S
-	Panic      any
+	Res               cosched.Result
+	Sched             *cosched.S
+	Panic             any
 
 	barrierWant    int
 	barrierArrived atomic.Int32
@@ -179,7 +180,8 @@ func (t *tgt) Evaluate(engine runner.Engine) (err error) {
 				break
 			}
 			d := req[i]
-			if ce, ok := r.Error.(runner.CyclicDependencyError); ok {
+			var ce runner.CyclicDependencyError
+			if errors.As(r.Error, &ce) {
 				o.CycleErrs = append(o.CycleErrs, fmt.Sprintf("%s<-%s: %s", label(t.idx), label(d), string(ce)))
 				depFailed = true
 				continue
@@ -188,7 +190,9 @@ func (t *tgt) Evaluate(engine runner.Engine) (err error) {
 				o.UnfinishedAtRet = fmt.Sprintf("%s continued past its dependency request while %s had not finished", label(t.idx), label(d))
 			}
 			if o.Finished[d] {
-				if r.Error != o.Outcome[d] && o.ResultMismatch == "" {
+				// the dependency's own error, possibly wrapped
+				same := r.Error == o.Outcome[d] || (r.Error != nil && o.Outcome[d] != nil && errors.Is(r.Error, o.Outcome[d]))
+				if !same && o.ResultMismatch == "" {
 					o.ResultMismatch = fmt.Sprintf("%s was handed error %v for %s, whose actual outcome is %v", label(t.idx), r.Error, label(d), o.Outcome[d])
 				}
 				var want runner.Target
